@@ -2,7 +2,7 @@ from .core import BASE_TRUST
 
 META = {
     "category": "proof",
-    "text": "Lean 4 theorems over the statement wrapper stmtImpl of the C05 model (the DML body works on copies obtained from the view map and publishes them - CachedViews.Set / ReplaceTemporaryTable - and sets the uncommitted marks only after the whole body succeeded): a statement that reports an error is the identity on tables, uncommitted marks and committed state, for every statement and every failure position (the index of the failing VALUES row / record / DEFAULT evaluation is universally quantified: any record may fail after earlier records were already rewritten in the working copy); a COMMIT after a failure writes exactly what a COMMIT before it would have written, in any history; COMMIT writes marked tables only. Cancellation is modelled too: every context check of every DML function precedes the publication of its results (Delete checks once between collecting the ids and its publication loop, repair 2dda37b), so a statement cancelled at ANY point is the identity on tables, marks and committed state (failed_stmt_id_cancel, full); the publication loop as it was before the repair is kept as a separate definition with its counter-witness and partial theorem. Model tied to /repo by a correspondence stream that runs every generated C05 statement additionally with an error injected at record k (division by zero in the k-th record's SET / VALUES / DEFAULT / WHERE expression or sub-query, wrong length of the k-th VALUES row, unknown field, record written twice, duplicate / unknown column, CREATE TABLE errors, cancellation at the k-th ctx.Err() call) and checks on the implementation alone that SELECT * of EVERY table and the uncommitted marks are identical before/after, and that the files after COMMIT are byte-identical to those of a control run without the failed statements",
+    "text": "Lean 4 theorems over the statement wrapper stmtImpl of the C05 model (the DML body works on copies obtained from the view map and publishes them - CachedViews.Set / ReplaceTemporaryTable - and sets the uncommitted marks only after the whole body succeeded): a statement that reports an error is the identity on tables, uncommitted marks and committed state, for every statement and every failure position (the index of the failing VALUES row / record / DEFAULT evaluation is universally quantified: any record may fail after earlier records were already rewritten in the working copy); a COMMIT after a failure writes exactly what a COMMIT before it would have written, in any history; COMMIT writes marked tables only. Cancellation is modelled too: every context check of every DML function precedes the publication of its results (Delete checks once between collecting the ids and its publication loop, repair 2dda37b), so a statement cancelled at ANY point is the identity on tables, marks and committed state (failed_stmt_id_cancel, full); the publication loop as it was before the repair is kept as a separate definition with its counter-witness and partial theorem. Model tied to /repo by a correspondence stream that runs every generated C05 statement additionally with an error injected at record k (division by zero in the k-th record's SET / VALUES / DEFAULT / WHERE expression or sub-query, wrong length of the k-th VALUES row, unknown field, record written twice, duplicate / unknown column, CREATE TABLE errors, cancellation at the k-th ctx.Err() call; failures that come AFTER the source query / scalar sub-query was evaluated: unknown column or key in INSERT/REPLACE … SELECT, wrong column count; the same inside IF / WHILE / function bodies / PREPARE-EXECUTE) and checks on the implementation alone that SELECT * of EVERY table and the uncommitted marks are identical before/after, that no table shows a value object the failed statement discarded (half of the sequences run with lib/value's poisoning hook on: law poisoned_read), and that the files after COMMIT are byte-identical to those of a control run without the failed statements - including 'COMMIT fails at the k-th context check (bytes already in the temporary files) -> the data is made shorter -> COMMIT again' histories for every k (laws failed_commit_changed_table / _marks / _file, commit_after_failed_commit_differs)",
     "design_ref": "DESIGN.md section 5, C08",
     "note": "trusted: Lean kernel; harness + driver; value semantics of the model (a copy is a value) - that the Go code writes only into copies is exactly what the before/after stream observes; the aliasing facts of DESIGN (Gen/CowFacts) are not generated; cancellation is injected through a context whose Err() starts failing at the k-th call (deterministic with @@CPU 1, still a valid law check otherwise); it is checked by the laws on the implementation alone, the model side is failed_stmt_id_cancel",
     "technique": "Lean 4 machine-checked proof (publish-after-success wrapper, error propagation for every failure position, commit algebra) + fault-injecting differential correspondence with the Go implementation and a control run",
@@ -15,6 +15,10 @@ def run(run):
         "value-semantics model: ViewMap.Get / GetWithInternalId / View.Copy return copies whose records are private (lib/query/view_map.go, record.go) - validated by the before/after stream, not proved about the Go code",
         "cancellation points of the model: inBody (any context check while loading / filtering / evaluating) and beforePublish (Delete's single check before its publication loop); that no publication loop contains a context check is validated by the scan that cancels a multi-target DELETE / UPDATE at EVERY ctx.Err() call (law cancelled_statement_changed_table, fixed finding F42)",
     ]
+    run.assumptions += [
+        "a failed COMMIT is outside the model's statement type: it is checked on the implementation alone (tables, marks and files unchanged by the failed COMMIT; the next COMMIT writes byte for byte what the control run writes), the model only sees the surrounding statements and the successful COMMIT",
+        "the poisoning hook (build tag verif, value.VerifSetPoison) makes a read of a discarded live value deterministic; it is process-global and switched per sequence",
+    ]
     run.obligations_for(["Csvq.Props.C08"])
     run.stream("c08", 2500 if q else 30000)
     if not q:
@@ -22,7 +26,7 @@ def run(run):
             run.stream("c08", 20000, seed_offset=k)
     return run.finish(
         level="proof",
-        rule="the statement generator of C05 (file-backed and temporary tables of 0-400 rows, @@CPU 1-4, sequences with interleaved COMMIT) with 1-2 faulty statements before every regular one; fault kinds: div (k-th record's SET/VALUES/DEFAULT), subq (scalar sub-query / INSERT..SELECT / CREATE..AS SELECT), where, len (k-th VALUES row / select width), field, dup (SET twice, multi-table double write, duplicate column), keynotset, keyfield, pos, exists, cancel (k-th ctx.Err() call, incl. a scan over every k for multi-target DELETE/UPDATE); k drawn over first / middle / last / absent records; non-trivial = distinct (statement kind, fault, error code, storage, size band, failure position, cpu) signature of FAILED statements",
+        rule="the statement generator of C05 (file-backed and temporary tables of 0-400 rows, @@CPU 1-4, sequences with interleaved COMMIT) with 1-2 faulty statements before every regular one; corpus first (cancellation at every ctx.Err() call of two-target UPDATE/DELETE; failures after the source query was evaluated, each followed by allocating statements, with poisoning; COMMIT failing at every context check then shorter data then COMMIT, three file tables two of them larger than the write buffer); fault kinds: div (k-th record's SET/VALUES/DEFAULT), subq (scalar sub-query / INSERT..SELECT / CREATE..AS SELECT), where, len (k-th VALUES row / select width), field, dup (SET twice, multi-table double write, duplicate column), keynotset, keyfield, pos, exists, cancel (k-th ctx.Err() call, incl. a scan over every k for multi-target DELETE/UPDATE); k drawn over first / middle / last / absent records; non-trivial = distinct (statement kind, fault, error code, storage, size band, failure position, cpu) signature of FAILED statements",
         trusted_base=BASE_TRUST + ["the control run (a second processor on a copy of the repository) as the oracle for 'earlier successful statements only'"],
         checker_cmd="cd /verif/lean && lake build Csvq.Props.C08 && lake env lean <#print axioms for every theorem>",
     )
